@@ -251,7 +251,16 @@ func runC02(c *Ctx) {
 func c02HandlerCallback(l *mapLoop, e loopEffect) bool {
 	info := l.Pkg.TypesInfo
 	found := false
-	ast.Inspect(l.Range.Body, func(n ast.Node) bool {
+	// the call may sit in the loop body or in a helper of the package that was classified in place
+	var root ast.Node = l.Range.Body
+	if e.Pos < l.Range.Body.Pos() || e.Pos > l.Range.Body.End() {
+		for _, f := range l.Pkg.Syntax {
+			if f.Pos() <= e.Pos && e.Pos <= f.End() {
+				root = f
+			}
+		}
+	}
+	ast.Inspect(root, func(n ast.Node) bool {
 		call, ok := n.(*ast.CallExpr)
 		if !ok || call.Pos() != e.Pos {
 			return true
